@@ -8,7 +8,8 @@ P = 'PydlVerif.C06.'
 THEOREMS = [P + t for t in (
     'objid_layout', 'objid_unpack_pack', 'objid_pack_unpack', 'objid_rejects', 'objids_is_map',
     'spec_layout', 'spec_unpack_pack', 'spec_pack_unpack', 'spec_rejects', 'spec_line_and_index',
-    'run2d_nmp_roundtrip', 'run2d_nmp_rejects', 'run2d_nmp_injective')]
+    'run2d_nmp_roundtrip', 'run2d_nmp_rejects', 'run2d_nmp_injective',
+    'parse_fmt_run2d', 'parse_digits_run2d', 'dec_string_id')]
 RULE = ('field tuples: per-field sweeps with the other fields at both extremes, random in-range tuples, '
         'every boundary +-1, scalar / array / decimal-string conventions, run2d as int / digit string / vN_M_P; '
         'a case is non-trivial when it reaches the packing or unpacking arithmetic or a range check; distinct = distinct case payloads')
@@ -411,5 +412,4 @@ LEVEL_TEXT = ('Machine-checked Lean 4 theorems over an executable model of the f
               'The model is tied to /repo on every run by I/O correspondence (per-field sweeps, boundaries, random tuples, '
               'scalar/array/string conventions) and an independent bit-string oracle.')
 LEVEL_NOTE = ('Trusted: Lean kernel, axioms propext/Classical.choice/Quot.sound at most, the hand-written model (validated only by the '
-              'correspondence sample), numpy string->int casts. Not proved: the text level of run2d strings (digit parsing) is modelled '
-              'and compared, the theorems are about the (N, M, P) numbers. String arrays for run2d are outside the statement.')
+              'correspondence sample), numpy string->int casts. The text level is proved for the strings the library itself produces (vN_M_P rebuilt by the unpacker, decimal digits); arbitrary user strings (leading zeros, suffixes) are modelled and compared. String arrays for run2d are outside the statement.')
